@@ -56,6 +56,13 @@ M = [
  ("M51-rhc-no-progress", "src/encodation/planner/shortest_path.rs", "        if uncomparable {\n            start += 1;", "        if uncomparable {\n            start += removed;", {"C11": "T-LOOPS-ENC"}),
  ("M52-edifact-dec-bit", "src/decodation/mod.rs", "        ch | 0b0100_0000\n", "        ch | 0b1100_0000\n", {"C04": "TAB-DEC", "C01": "TAB-CODEC"}),
  ("M53-edifact-dec-shift", "src/decodation/mod.rs", "let val = ((chunk >> 12) & 0b11_1111) as u8;", "let val = ((chunk >> 11) & 0b11_1111) as u8;", {"C04": "TAB-DEC", "C01": "TAB-CODEC"}),
+ ("M54-parse-skip-pixel", "src/placement.rs", "let alignment_ok = last_row.iter().all(|b| *b == M::HIGH)", "let alignment_ok = last_row.iter().skip(1).all(|b| *b == M::HIGH)", {"C08": "PARSE-INV"}),
+ ("M55-parse-or", "src/placement.rs", "let alignment_ok = row[0] == M::HIGH && row[blk_w + 1] == alignment_bit;", "let alignment_ok = row[0] == M::HIGH || row[blk_w + 1] == alignment_bit;", {"C08": "PARSE-INV"}),
+ ("M56-parse-first-piece-unchecked", "src/placement.rs", "                if !alignment_ok {\n                    return Err(BitmapConversionError::Alignment);\n                }\n                entries.extend_from_slice", "                if !alignment_ok && j > 0 {\n                    return Err(BitmapConversionError::Alignment);\n                }\n                entries.extend_from_slice", {"C08": "PARSE-INV"}),
+ ("M57-parse-padding-pattern", "src/placement.rs", "let padding_ok = entries[entries.len() - 2..] == [M::LOW, M::HIGH]", "let padding_ok = entries[entries.len() - 2..] == [M::HIGH, M::HIGH]", {"C08": "PARSE-INV"}),
+ ("M58-parse-content-shift", "src/placement.rs", "entries.extend_from_slice(&row[1..blk_w + 1]);", "entries.extend_from_slice(&row[0..blk_w]);", {"C08": "PARSE-INV"}),
+ ("M59-lookup-width-only", "src/placement.rs", "bs.width == width && bs.height == height", "bs.width == width && bs.height >= height", {"C08": "DOM-BITMAP", "C05": "DOM-BITMAP"}),
+ ("M60-map-new-swapped", "src/placement.rs", "            entries: vec![M::LOW; w * h],\n            width: w,\n            height: h,", "            entries: vec![M::LOW; w * h],\n            width: h,\n            height: w,", {"C07": "PROV-MAP", "C08": "PROV-MAP"}),
  ("M24-switch-insert", "src/encodation/planner/generic.rs", "                    switches.push((rest_len, EncodationType::$enum));", "                    switches.insert(0, (rest_len, EncodationType::$enum));", {"C18": "PLAN-MONO"}),
 ]
 def main():
